@@ -154,6 +154,45 @@ class Stash(sm.SM):
         return a["t"]
 
 
+class Assoc(sm.SM):
+    """spec/Assoc.tla: the composition client association || honest server || rotating cookie keys || lossy,
+    duplicating, reordering network, replayed on the real NtpSource + Server + KeySetProvider."""
+    module = "Assoc"
+    mc_module = "Assoc"
+    crate = "ntp_proto"
+    test = "source::verif_hook::assoc::verif_assoc"
+
+    def configs(self, prop, tier):
+        return ["Small"]
+
+    def harness_cfg(self, cfgname, init_state):
+        return dict(Mode="NtsV4", MinPoll=4, MaxPoll=4, LocalStratum=16, SrcLocal=False, init_stash=[],
+                    History=0, MaxGen=1, MaxNet=1, CLen=104)
+
+    def act_sig(self, a):
+        if a["t"] in ("SrvRecv", "CliRecv"):
+            m = a["m"]
+            return "%s[%s,age=%s,n=%s,keep=%s]" % (a["t"], m["kind"], m["age"], m["n"], a["keep"])
+        return a["t"]
+
+
+def assoc_stage(out, prop, tier, seed):
+    a = Assoc()
+    a.model_and_replay(out, prop, tier, seed, "Small", max_len=80)
+    # liveness of the composition under the timeliness assumption (and, thorough, the larger safety model)
+    res = vf.run_tlc("Assoc", "Live_Assoc_Small.cfg", workers=4, timeout=900, coverage=False)
+    if res.violated:
+        raise vf.ToolError("Assoc liveness fails on the model: %s\n%s" % (res.violated, res.error_trace[:1500]))
+    out.add("states", res.distinct)
+    out.add("transitions", res.generated)
+    if tier == "thorough":
+        res = vf.run_tlc("Assoc", "MC_Assoc_V4.cfg", workers=8, timeout=3000, coverage=False)
+        if res.violated:
+            raise vf.ToolError("Assoc (V4 model) violates %s at design level" % res.violated)
+        out.add("states", res.distinct)
+        out.add("transitions", res.generated)
+
+
 def reach_lemma(out):
     res = vf.run_tlc("Reach", "Reach.cfg", workers=2, timeout=300, coverage=False)
     if res.violated:
@@ -177,6 +216,8 @@ def run(prop, tier, seed):
         size_domain(out, prop, tier, seed)
     if prop == "C13":
         Stash().model_and_replay(out, prop, tier, seed, "main", max_len=40)
+    if prop in ("C13", "C08"):
+        assoc_stage(out, prop, tier, seed)
     if prop == "C11":
         reach_lemma(out)
     return out
